@@ -5,6 +5,8 @@ property's direct oracle (brute-force pixel map) on the implementation's output.
 from __future__ import annotations
 
 import networkx as nx
+from pathlib import Path
+
 import numpy as np
 
 import common as C
@@ -14,14 +16,15 @@ META = {
     "id": "C13",
     "coq_targets": ["Props/C13.vo", "Extract/Extract_C13.vo"],
     "technique": "Coq proof (association-list model of dict(zip(..)); fold invariants for the per-frame and per-time painting loops, reusing the C19 painter lemmas) + differential correspondence of the extracted model with relabel_segmentation and with the tracks_from_df import path",
-    "level_text": "Theorems C13_offset / C13_relabel / C13_relabel_last_wins / C13_graph_shift / C13_shortcut_sound / C13_handle_segmentation hold for every label array and every list of (node id, time, seg id) rows of every size (unbounded Z labels and ids); the hand-written model is tied to /repo by running the extracted model and the implementation (direct call and end-to-end DataFrame import) on the same generated inputs and comparing arrays pixel by pixel, the renamed node sets, and which branch of handle_segmentation was taken. C13_relabel_is_generated: relabel_segmentation of the model equals, for all arguments, the code translated on every run from the current _import_segmentation.py (Gen/Relabel_gen.v; fail-closed translator).",
+    "level_text": "Theorems C13_offset / C13_relabel / C13_relabel_last_wins / C13_graph_shift / C13_shortcut_sound / C13_handle_segmentation hold for every label array and every list of (node id, time, seg id) rows of every size (unbounded Z labels and ids); the hand-written model is tied to /repo by running the extracted model and the implementation (direct call and end-to-end DataFrame import) on the same generated inputs and comparing arrays pixel by pixel, the renamed node sets, and which branch of handle_segmentation was taken. C13_relabel_is_generated: relabel_segmentation of the model equals, for all arguments, the code translated on every run from the current _import_segmentation.py (Gen/Relabel_gen.v; fail-closed translator). Source tie: the import pipeline of the model (rename, combination of list-mapped columns, id integerisation, edge derivation, structural validation, graph construction, handle_segmentation; whole CSV build = import_csv, whole GEFF build = import_geff) equals, for all arguments, the code translated on every run from _tracks_builder.py, csv/_import.py, geff/_import.py and _validation.py (Gen/ImportPipeline_gen.v; Proofs/ImportTie.v, 24 closed theorems); pandas dtype inference, geff's id validators and file reading stay oracle inputs.",
     "level_note": "Trusted: Coq kernel, extraction (ExtrOcamlBasic), OCaml driver, Python harness. Modelled not verified: numpy boolean-mask assignment, np.unique, np.isin, np.array_equal, Python dict insertion order, networkx relabel_nodes (its effect on the node set is compared with the model on every case; edges are checked by the oracle only), pandas/geff loading of the DataFrame (row order is preserved; checked by the comparison). uint64 wrap-around is out of scope (ids are unbounded Z in the model, non-negative in the harness). Tied to the source in a second way: relabel_segmentation is re-translated on every run (harness/translate_numpy_utils.py, fail closed; numpy combinators Model/NpRt.v) and proved equal to the model (Proofs/RelabelTie.v).",
     "design_ref": "DESIGN.md section 9 (C13)",
     "assumptions": ["every row's time is a valid frame index (0 <= time < T); Python raises IndexError otherwise",
                     "C13_relabel / C13_handle_segmentation: the (time, seg id) pairs of the rows are pairwise distinct (C13_relabel_last_wins covers repeated pairs: the later row wins)",
                     "C13_handle_segmentation: the identity shortcut is not taken while 0 is a node id (only possible when node 0 has seg id 0, i.e. claims the background; then nothing is shifted - see Example C13_shortcut_id0_differs)",
                     "node ids are non-negative and below 2^64 - 1 (the output array is uint64)"],
-    "trusted": ["translator harness/translate_numpy_utils.py (closed idiom table; fail closed) with the numpy combinators coq/Model/NpRt.v",
+    "trusted": ["translator harness/translate_import.py (closed idiom table; fail closed) with coq/Model/PyRt6.v",
+                "translator harness/translate_numpy_utils.py (closed idiom table; fail closed) with the numpy combinators coq/Model/NpRt.v",
                 "networkx.relabel_nodes(copy=False) with the mapping id -> id+1: node set and edge set after the call are compared with id+offset on every generated case"],
 }
 
@@ -39,8 +42,37 @@ BUILDER_MAX_ID = 300000
 DTYPE_DRAW = ["uint8"] * 6 + ["uint16"] * 4 + ["int32"] * 3 + ["int64"] * 5 + ["uint64"] * 2
 
 
+SRC_FORMATS = ["tif_folder_unpadded", "tif_folder_unpadded", "tif_folder_padded", "tif_single", "zarr"]
+
+
+def write_source(arr, fmt, root):
+    """write the label array the way a user hands it over as a path; returns the path"""
+    import shutil
+    import tifffile
+    import zarr
+
+    d = Path(root) / "segsrc"
+    shutil.rmtree(d, ignore_errors=True)
+    if fmt.startswith("tif_folder"):
+        d.mkdir(parents=True)
+        for t in range(arr.shape[0]):
+            name = ("seg_%d.tif" % t) if fmt.endswith("unpadded") else ("seg_%04d.tif" % t)
+            tifffile.imwrite(d / name, arr[t])
+        return d
+    if fmt == "tif_single":
+        d.mkdir(parents=True)
+        tifffile.imwrite(d / "stack.tif", arr)
+        return d / "stack.tif"
+    z = zarr.open(str(d), mode="w", shape=arr.shape, dtype=arr.dtype, chunks=(1, *arr.shape[1:]))
+    z[:] = arr
+    return d
+
+
 def mk_array(a64, dt, dask):
     arr = a64.astype(DTYPES[dt][0])
+    if isinstance(dask, str):  # "path:<format>:<tmp dir>" - the segmentation is given as a path
+        _, fmt, root = dask.split(":", 2)
+        return write_source(arr, fmt, root)
     if dask:
         import dask.array as da
 
@@ -90,7 +122,7 @@ def prow(rows):
 # ----------------------------------------------------------------------------- generators
 def gen_seg(rng, T, shape, unique):
     a = np.zeros((T, *shape), dtype=np.int64)
-    pool = list(range(1, 13))
+    pool = list(range(1, max(13, 3 * T + 1)))
     rng.shuffle(pool)
     for t in range(T):
         if rng.random() < 0.08:
@@ -108,9 +140,9 @@ def detections(a):
     return [(t, int(l)) for t in range(a.shape[0]) for l in np.unique(a[t]) if l != 0]
 
 
-def gen_case(rng, mode, dt="int64"):
+def gen_case(rng, mode, dt="int64", T=None):
     """returns (seg as int64 reference array, rows [(id, time, seg_id)], parents {id: parent id}, tags)"""
-    T = rng.randint(2, 4)
+    T = T or rng.randint(2, 4)
     shape = rng.choice(SHAPES_3D) if rng.random() < 0.3 else rng.choice(SHAPES_2D)
     ident = mode.startswith("identity")
     a = gen_seg(rng, T, shape, unique=ident)
@@ -295,6 +327,12 @@ def pre_build(ctx):
     ok, msg = translate_numpy_utils.regenerate_relabel()
     if not ok:
         raise RuntimeError("translator refused _import_segmentation.py: %s" % msg)
+    # re-translate the import pipeline (Gen/ImportPipeline_gen.v, tied by Proofs/ImportTie.v)
+    import translate_import
+
+    ok, msg = translate_import.regenerate()
+    if not ok:
+        raise RuntimeError("translator refused the import sources: %s" % msg)
 
 
 def run(ctx):
@@ -338,6 +376,23 @@ def run(ctx):
             stats["builder_skipped_huge_ids"] += 1
             continue
         cases.append(("H", a, brows, parents, classify(a, brows, tags), dt, dask))
+        lines.append("H %s#%s" % (prow(brows), pframes(a)))
+    # ---- the segmentation handed over as a PATH (folder of per-frame TIFFs with unpadded or padded frame
+    #      numbers, one multi-page TIFF, a zarr array), 11-13 frames so that the order of the frames matters
+    import tempfile
+    tmp_root = tempfile.mkdtemp(prefix="funverif.")
+    for k in range(12 if ctx.quick() else 80):
+        mode = rng.choice(MODES)
+        dt = rng.choice(["uint8", "uint16", "int32", "int64"])
+        a, rows, parents, tags = gen_case(rng, mode, dt, T=rng.randint(11, 13))
+        brows = builder_rows(a, rows)
+        tg = classify(a, rows, tags)
+        off_ = 1 if any(i == 0 for i, _, _ in rows) else 0
+        if brows is None or ("segids_eq_ids" in tg and "id0" in tg) or any(i + off_ > BUILDER_MAX_ID for i, _, _ in rows):
+            continue
+        fmt = rng.choice(SRC_FORMATS)
+        stats["path_" + fmt] = stats.get("path_" + fmt, 0) + 1
+        cases.append(("H", a, brows, parents, classify(a, brows, tags), dt, "path:%s:%s" % (fmt, tmp_root)))
         lines.append("H %s#%s" % (prow(brows), pframes(a)))
     rc, mout = C.run_driver(ctx.driver, lines)
     divergences, violations, samples = [], [], []
